@@ -593,7 +593,7 @@ func c13R6(p *core.Prog, r *core.Report) {
 	}
 	var put ssa.Instruction
 	core.Calls(apply, func(c ssa.CallInstruction) {
-		if g := core.CalleeFn(c); g != nil && g.Name() == "dagPut" {
+		if g := core.CalleeFn(c); g != nil && canon(g) == "dagPut" {
 			put = c.(ssa.Instruction)
 		}
 	})
